@@ -111,7 +111,7 @@ Ltac unfold_model :=
        m4_transform_vector m4_transform_point m3_concat m4_concat m3_inverse_transform m4_inverse_transform
        m2_lerp m3_lerp m4_lerp
        m2x m2y m3x m3y m3z m4x m4y m4z m4w
-       app nth map fold_right fold_left repeat seq Nat.odd Nat.even Nat.add negb] in *.
+       app nth map fold_right fold_left repeat seq Nat.odd Nat.even Nat.add negb lzip] in *.
 
 From CG Require Import Model.Angle Model.Quaternion.
 
